@@ -155,10 +155,14 @@ def solve_event(sess, step, store):
             "shapes": [_shape_list(v) for v in V], "V": [_flat(v) for v in V], "ccv": ccv}
 
 
-def _init_arrays(m, init, int_init=False):
+def _init_arrays(m, init, int_init=False, np_init=False):
     """int_init: continuous states whose initial values are all integers are passed as an integer array
-    (a user who types wealth = [10, 35] gets one)."""
+    (a user who types wealth = [10, 35] gets one).  np_init: numpy arrays instead of jax arrays."""
     import jax.numpy as jnp
+    import numpy as np
+
+    if np_init:
+        jnp = np  # noqa: F811
 
     out = {}
     for name, vals in init.items():
@@ -181,10 +185,12 @@ def simulate_event(sess, step, store):  # noqa: C901
     p = sess.params_for(m, step)
     init = {k: [F(x) if not isinstance(x, (list, tuple)) else F(*x) for x in v] for k, v in step["init"].items()}
     order = step.get("init_order") or list(init)
-    init_arr = _init_arrays(m, {k: init[k] for k in order}, int_init=bool(step.get("int_init")))
+    init_arr = _init_arrays(m, {k: init[k] for k in order}, int_init=bool(step.get("int_init")), np_init=bool(step.get("np_init")))
     n_agents = len(next(iter(init.values())))
     targets = step.get("targets") or []
     kwargs = {"initial_states": init_arr, "seed": step.get("seed", 0)}
+    if step.get("seed", 0) is None:      # the caller does not pass a seed: the documented default applies
+        del kwargs["seed"]
     if targets:
         kwargs["additional_targets"] = list(targets)
     vsrc = step.get("vsrc", "own")
@@ -239,7 +245,7 @@ def simulate_event(sess, step, store):  # noqa: C901
             "targets": {n: MDL.enc(cols[n][k]) for n in targets},
         })
     index = [[int(a), int(b)] for a, b in df.index.tolist()] if df.index.nlevels == 2 else [[-1, int(a)] for a in df.index.tolist()]
-    return {"e": "simulate", "target": target, "jit": bool(jit), "seed": int(step.get("seed", 0)), "vsrc": vsrc,
+    return {"e": "simulate", "target": target, "jit": bool(jit), "seed": int(step.get("seed", 0) if step.get("seed", 0) is not None else -1), "vsrc": vsrc,
             "V": [_flat(v) for v in Vused] if (Vused is not None and need_v) else [],
             "N": n_agents, "init": {k: [MDL.q(x) for x in v] for k, v in init.items()},
             "targets": list(targets), "cols": [str(c) for c in df.columns], "index": index, "rows": rows,
